@@ -19,8 +19,8 @@ def run(R, ctx):
              "on the same keys; fields and values from a binary alphabet with the empty string, numbers, extreme integers and floats; refused-command scenarios followed by a full dump (a refused command changes nothing); the int64 boundary grid: every pair (stored value, increment) of 11 edge values through HINCRBY")
 
     rule = R.rule
-    concsuite.run_conc(R, ctx, "hash-addrem", ['addrem'], (2, 12), race=False)
-    R.rule = rule + " Concurrent scenario(s) addrem of the conc engine (see C05): the family's containers under concurrent clients, verdict by invariants that need no history search."
+    concsuite.run_conc(R, ctx, "hash-addrem", ['addrem', 'counters'], (2, 12), race=False)
+    R.rule = rule + " Concurrent scenario(s) addrem, counters (numbers oscillating across a digit boundary under HINCRBY / INCR while other clients list them in bulk: every value read is one the counter held) of the conc engine (see C05): the family's containers under concurrent clients, verdict by invariants that need no history search."
 
 def replay(R, payload):
     if payload.get("engine") == "conc":
